@@ -132,6 +132,22 @@ def http_lines(da, rng: random.Random, tier_: str) -> list[dict[str, Any]]:
                                 scte.append({'id': int(a.get('id', -1)), 'bytes': []})
                 lines.append({'ev': 'manifest', 'kind': kind, 'url': f'/dash/vod/bbb/hand_made.mpd?{q}&{kind}__inband=0', 'sch': eff,
                               'events': evs, 'scte': scte})
+    # the schedule comes from the stream's own option defaults (nothing but events=<kind> in the URL): same events
+    dsch = {'ping': dict(start=250, interval=400, count=3, duration=150, ts=100, version=0),
+            'scte35': dict(start=300, interval=900, count=4, duration=700, ts=100, version=1)}
+    for kind in ('ping', 'scte35'):
+        q = f'events={kind}'
+        for n in range(1, 11):
+            url = f'/dash/vod/evd/evd_v7/{n}.m4v?{q}'
+            r = c.get(url)
+            if r.status_code != 200:
+                lines.append({'ev': 'fail', 'url': url, 'status': r.status_code})
+                continue
+            p = Parsed(r.data)
+            tfdt = p.find('moof', 'traf', 'tfdt').f['base_media_decode_time']
+            scte = [{'id': b.f['id'], 'bytes': list(b.f['message_data'])} for b in p.all_top('emsg')] if kind == 'scte35' else []
+            lines.append({'ev': 'seg', 'layer': 'http', 'kind': kind, 'url': url, 'sch': dsch[kind], 's': tfdt, 'e': tfdt + sf.segments[n - 1].dur,
+                          'rts': rts, 'boxes': [box_line(b) for b in p.all_top('emsg')], 'scte': scte})
     # live, across a loop of the source: AST shortly before now, numbers around the loop seam
     ast = datetime.datetime(2024, 3, 5, 11, 58, 0, tzinfo=datetime.timezone.utc)
     sch = dict(start=3000, interval=700, count=0, duration=100, ts=100, version=0)
@@ -227,6 +243,9 @@ def main(tier_: str) -> int:
             with da.app.test_request_context('/'):
                 lines = pure_lines(rng, tier_)
             npure = len(lines)
+            da.add_fixture('bbb', directory='evd', title='event schedules in the stream defaults', only={'bbb_v7', 'bbb_a1'},
+                           defaults={'ping': {'start': 250, 'interval': 400, 'count': 3, 'duration': 150, 'timescale': 100, 'version': 0},
+                                     'scte35': {'start': 300, 'interval': 900, 'count': 4, 'duration': 700, 'timescale': 100}})
             lines += http_lines(da, rng, tier_)
             nhttp = len(lines) - npure
             with da.app.test_request_context('/'):
